@@ -3,6 +3,7 @@ package main
 import (
 	"context"
 	"fmt"
+	"strings"
 	"sync"
 	"time"
 
@@ -28,6 +29,9 @@ func c01Addressings() []c01Addr {
 		{"host", "e", ""}, {"header", "E1", ""}, {"header", "e1x", ""}, {"tcp", "e1x", ""}, {"tcp", "e", ""}, {"host", "e1x", ""},
 		// E1 differs from e1 only in case and has its own upstream
 		{"host", "E1", ""}, {"tcp", "E1", ""}, {"both", "E1", "e1"}, {"both", "e1", "E1"},
+		// the client declares the endpoint header hop-by-hop (Connection: x-piko-endpoint):
+		// whichever node ends up serving, it is still the endpoint the header named
+		{"both+conn", "e1", "e2"}, {"both+conn", "e2", "e1"}, {"header+conn", "e1", ""},
 	}
 }
 
@@ -112,7 +116,11 @@ func (w *c01World) configure(c c01Case) {
 
 func (w *c01World) run(c c01Case) (sig, msg string) {
 	w.configure(c)
-	res := e4.Do(w.cl.Nodes[c.Entry].Addr, e4.Addressing{Mode: c.Addr.Mode, Endpoint: c.Addr.Endpoint, Other: c.Addr.Other})
+	ad := e4.Addressing{Mode: c.Addr.Mode, Endpoint: c.Addr.Endpoint, Other: c.Addr.Other}
+	if m, ok := strings.CutSuffix(ad.Mode, "+conn"); ok {
+		ad.Mode, ad.Extra = m, map[string]string{"Connection": "x-piko-endpoint"}
+	}
+	res := e4.Do(w.cl.Nodes[c.Entry].Addr, ad)
 	desc := fmt.Sprintf("%+v -> %s", c, res)
 	if res.Err != "" {
 		return "request-failed", desc
@@ -416,7 +424,7 @@ func init() {
 		}
 		run.Set("evaluations", evals+e2)
 		run.Set("distinct_nontrivial", nontriv+pl)
-		run.Set("rule", "component cluster (3 real proxies/managers/routing tables): all 64 placements of upstreams of two endpoints x 5 routing-view policies (truth, all, none, swapped, complement) x entry node x 18 addressings (Host label, x-piko-endpoint, conflicting, TCP route, near-miss names), non-trivial = both endpoints have upstreams; full cluster (real servers, gossip, client listeners): Gray-code walk over every placement, settle, every entry x 8 addressings; then per endpoint x {tcp, header, host}: a listener stops accepting with Close() (connection kept) while another node has a listener, every entry must end up served")
+		run.Set("rule", "component cluster (3 real proxies/managers/routing tables): all 64 placements of upstreams of two endpoints x 5 routing-view policies (truth, all, none, swapped, complement) x entry node x 21 addressings (Host label, x-piko-endpoint, conflicting, TCP route, near-miss names), non-trivial = both endpoints have upstreams; full cluster (real servers, gossip, client listeners): Gray-code walk over every placement, settle, every entry x 8 addressings; then per endpoint x {tcp, header, host}: a listener stops accepting with Close() (connection kept) while another node has a listener, every entry must end up served")
 		run.Set("settled_placements", pl)
 		run.Set("exhaustive", true)
 		run.Assume("interleaving of connects/disconnects with in-flight requests is free-running (lock-level interleavings of Select/AddConn/RemoveConn are enumerated by C15/C20)")
